@@ -324,6 +324,9 @@ func (node *Node) load(ctx context.Context) error {
 			}
 			return errors.Wrap(err, "fetch tx state")
 		}
+		if txState.State.Cancelled {
+			continue // a confirmed double spend took it out of the mempool
+		}
 		node.memPool.AddTransaction(ctx, txState.Tx, false)
 	}
 
